@@ -53,6 +53,17 @@ func IsNetworkClosed(err error) bool {
 	return false
 }
 
+// IsTemporaryAcceptError checks whether an error returned by accept() is a shortage of resources or a connection that
+// was gone before it could be accepted, i.e. a condition that passes and after which accept() can be called again
+func IsTemporaryAcceptError(err error) bool {
+	for _, errno := range []syscall.Errno{syscall.EMFILE, syscall.ENFILE, syscall.ENOBUFS, syscall.ENOMEM, syscall.ECONNABORTED} {
+		if errors.Is(err, errno) {
+			return true
+		}
+	}
+	return false
+}
+
 // IsNetworkError checks whether the given error should be considered a network issue,
 // as opposed to e.g. expired certificate or permission denied
 //
